@@ -213,7 +213,7 @@ def run_cases(run, builds, cfg, max_real=60, max_near=14, tag="c08"):
         if len(real) > max_real:
             prio = [x for x in real if G.priority_selector(x)]
             if len(prio) > max_real // 2:
-                longest = sorted(prio, key=lambda x: -x.count("."))[:8]        # the deepest paths always
+                longest = sorted(prio, key=lambda x: -x.count("."))[:min(8, max_real // 2)]   # the deepest paths always
                 others = [x for x in prio if x not in set(longest)]
                 prio = longest + rng.sample(others, max_real // 2 - len(longest))
             rest = [x for x in real if x not in set(prio)]
@@ -360,7 +360,7 @@ def full_cfg(cfg):
 
 def check(run):
     thorough = run.tier == "thorough"
-    n_objects = 1500 if thorough else 110
+    n_objects = 1500 if thorough else 90
     run.coverage["rule"] = (
         "generated SDO/SRO/marking-definition objects (2.0 and 2.1; built by class constructor, by parse, or kept as plain "
         "dicts) with falsy values, repeated list elements, embedded objects, nested custom content and prefix-related "
@@ -393,6 +393,13 @@ def check(run):
                 FINDING_OF_TAG[tag][2]))
     builds = [G.gen_build(run.rng) for _ in range(n_objects)]
     cases, impl, model = run_cases(run, builds, cfg)
+    # per-class pass: every class with its own constraint code, both versions, by class and by parse, with and
+    # without extensions -- fewer selectors each (the point is construction / parse with bad selectors)
+    cov = G.coverage_builds(run.rng)
+    cases2, impl2, model2 = run_cases(run, cov, cfg, max_real=10, max_near=10, tag="c08c")
+    run.coverage["per_class_objects"] = len(cases2)
+    model = (model + model2) if (model is not None and model2 is not None) else None
+    cases, impl = cases + cases2, impl + impl2
     syntax_correspondence(run, cfg, 3000 if thorough else 300)
     hist = collections.Counter()
     dis = []
@@ -417,9 +424,26 @@ def check(run):
                         break
             elif m_paths != paths_line:
                 dis.append({"build": c["build"], "iterpath_impl": paths_line, "iterpath_model": m_paths})
-        run.violations += oracle_case(c["build"], r["tree"], c["selectors"], r["results"], cfg)
+        try:
+            run.violations += oracle_case(c["build"], r["tree"], c["selectors"], r["results"], cfg)
+        except Exception as e:  # noqa: BLE001 -- the oracle must never take the check down
+            run.broken.append(Broken("harness", "oracle failed on a case", {"build": c["build"], "error": "%s: %s" % (type(e).__name__, e)}))
         if i < 2:
             run.sample({"build": c["build"], "selector": c["selectors"][0], "impl": impl_long(r["results"][0])})
+    # every fifth object again in another process environment (TZ=JST-9, PYTHONHASHSEED=7, lower recursion limit)
+    alt_idx = list(range(0, len(cases), 5))
+    alt = common.run_impl("c07_impl", [cases[i] for i in alt_idx], args=("--alt-env",))
+    env_dis = []
+    for i, r in zip(alt_idx, alt):
+        if "results" in r and "results" in impl[i]:
+            a = " ".join(impl_line(x) for x in r["results"])
+            b = " ".join(impl_line(x) for x in impl[i]["results"])
+            if a != b or sorted(r["iterpath"]) != sorted(impl[i]["iterpath"]):
+                env_dis.append({"build": cases[i]["build"], "default_env": b[:200], "alt_env": a[:200]})
+    run.coverage["alt_environment_objects"] = len(alt_idx)
+    if env_dis:
+        run.broken.append(Broken("correspondence", "results depend on the process environment (TZ / PYTHONHASHSEED)",
+                                 {"first": env_dis[:3]}))
     run.coverage["objects"] = len(cases)
     run.coverage["outcome_histogram"] = dict(hist)
     run.coverage["correspondence_disagreements"] = len(dis)
